@@ -139,8 +139,11 @@ PROFILES = {
                  texts=("Tab", "Tc"), chars=("X",), bs=True, der=False, enm=False, edm=True, neutral=(), nl=False,
                  doubling="always", rate="d"),
   "painton": dict(styles=("RDC",), pacs=("P15i0", "P15i8", "P15cy", "P14i0", "P14wu", "P1i8"), tos=(), mids=("Mit", "Mgu"),
-                  texts=("Tab", "Td_", "T_e"), chars=("X",), bs=True, der=True, enm=False, edm=True, neutral=(), nl=False,
+                  texts=("Tab", "Tc"), chars=("X",), bs=True, der=True, enm=False, edm=True, neutral=(), nl=False,
                   doubling="always", rate="n"),
+  # paint-on, words: the reader starts a new timed span at every blank
+  "painton-words": dict(styles=("RDC",), pacs=("P15i0", "P14cy"), tos=(), mids=(), texts=("Tab", "Td_", "T_e"), chars=(),
+                        bs=False, der=False, enm=False, edm=True, neutral=(), nl=False, doubling="always", rate="d"),
   "mix": dict(styles=("RCL", "RU2", "RU3", "RDC"), pacs=("P15i0", "P14cy"), tos=(), mids=("Mit",), texts=("Tab",),
               chars=(), bs=False, der=False, enm=True, edm=True, neutral=(), nl=False, doubling="always", rate="n"),
   # decorations: single / doubled control codes x null and channel-2 interleaving x line breaks, both time code kinds
@@ -152,8 +155,8 @@ PROFILES = {
                  doubling="both", rate="d"),
 }
 DEPTHS = {
-  "quick": {"popon-layout": 6, "popon-pen": 6, "rollup": 6, "painton": 6, "mix": 8, "deco-n": 5, "deco-d": 5},
-  "thorough": {"popon-layout": 8, "popon-pen": 8, "rollup": 8, "painton": 8, "mix": 10, "deco-n": 7, "deco-d": 7},
+  "quick": {"popon-layout": 6, "popon-pen": 6, "rollup": 6, "painton": 6, "painton-words": 6, "mix": 8, "deco-n": 5, "deco-d": 5},
+  "thorough": {"popon-layout": 8, "popon-pen": 8, "rollup": 8, "painton": 8, "painton-words": 8, "mix": 10, "deco-n": 7, "deco-d": 7},
 }
 
 # ------------------------------------------------------------------------------------------------------
@@ -822,6 +825,19 @@ def evaluate(history, prof, deep=True):
     _cross_check_isd(doc, view, rend)
   if findings and deep:
     _attribute(history, prof, rend, view, findings, out)
+  if deep and rend.lines:
+    bad = convention_breaks(rend, view, refs)
+    if bad:
+      dupdev = frozenset((R6.DEV_DUP_KEEPS_ACROSS_SKIPPED,))
+      if not convention_breaks(rend, view, reference_run(rend, dupdev)):
+        if not any(v[1] == f"dev={R6.DEV_DUP_KEEPS_ACROSS_SKIPPED}" for v in out.violations):
+          out.violations.append(("C08.dup", f"dev={R6.DEV_DUP_KEEPS_ACROSS_SKIPPED}", [int(t) - rend.lines[0][0] for t in bad], None,
+                                 "change instants are those of a reader that drops a control code as redundant although a null / "
+                                 "other-channel word lies between it and its first copy"))
+      else:
+        out.violations.append(("C08.timing.convention", "instant-not-on-a-word-count", [str(t - rend.lines[0][0]) for t in bad],
+                               "time code + count of non-redundant words (+1 for EDM)",
+                               "frames relative to the first time code at which the document changes"))
   # configuration: the displayed screens do not depend on text_align; a configured alignment is applied
   if history and base_tok(history[-1]) == "EOC" and deep:
     _check_align(text, view, rend, out)
@@ -922,6 +938,27 @@ def _features(history, idx):
     else:
       rowstate = "gap"
   return p, ck, tokclass, last_pac, rowstate
+
+
+def convention_breaks(rend, view, refs):
+  """`timing.convention` (isolated clause; the reader's own convention, pinned by its unit tests: a suppressed redundant
+  control code does not advance the frame counter, an EDM erases at the following frame): every instant at which the
+  document changes is  time code + number of words of that line, up to some word, that are not redundant copies
+  (+1 for an EDM).  Returns the instants that are not."""
+  allowed = set()
+  g = 0
+  for k, ws in rend.lines:
+    cnt = 0
+    for w in ws:
+      acted = refs[g + 1][3]
+      g += 1
+      if acted == "ignored-dup" and not (w >> 8) & 0x08:       # redundant copy of a channel-1 control code
+        continue
+      cnt += 1
+      allowed.add(k + cnt)
+      if acted == "EDM":
+        allowed.add(k + cnt + 1)
+  return [t for t in view.instants() if t not in allowed]
 
 
 def _score(findings, sub):
